@@ -22,6 +22,7 @@ func init() {
 	reg("C12", "C12.T", "E5", "no unchecked type assertion in the decode path outside the reviewed table", 1, ruleDecoderAsserts)
 	reg("C12", "C12.W", "E6", "writes into the caller's buffer are the enumerated, reviewed ones", 1, ruleCallerBuffer)
 	reg("C12", "C12.L", "E3", "mutex-protected decoder scratch state: accessed under the lock, no alias used after release", 1, ruleDecoderScratch)
+	reg("C12", "C12.D", "E2", "no integer division or remainder by a value that may be zero in the decode path", 1, ruleDecoderDivisions)
 	reg("C12", "C12.R", "E2", "Pipeline.In returns the event to the pool on a decode error (same rule as C05.R2)", 1, ruleGetStreamOrBack)
 }
 
@@ -411,4 +412,10 @@ func (c *Ctx) usedWithoutLock(v ssa.Value, flow *lockFlowResult, ref lockRef, de
 		}
 	}
 	return nil
+}
+
+func ruleDecoderDivisions(c *Ctx, r *Rule) {
+	c.runDivisions(r, c.decodeScope())
+	r.Inst(1)
+	r.Ob(true, "scope", token.NoPos, "integer divisions in the decode scope enumerated")
 }
